@@ -1732,7 +1732,6 @@ def _k3_targets():
 
 K4_RULES = [
     ("rtf-cell-and-row-marks-dropped", ("boundary-merged",), ("cell-mark",), ()),
-    ("rtf-page-or-section-break-merged", ("boundary-merged",), ("page", "sect"), ()),
     ("rtf-deleted-revision-text-in-full-text", ("excluded-text-leaks",), ("deleted",), ()),
     ("rtf-control-words-starting-with-u-leak", ("foreign-text-in-output",), ("doc:u-word",), ()),
     ("rtf-unicode-fallback-not-skipped", ("foreign-text-in-output",), ("doc:u-fallback",), ()),
@@ -1750,8 +1749,10 @@ RTF_LEXEMES = [
     ("line",        "\\line ",                         [("sep", "line")]),
     ("cell",        "\\cell ",                         [("sep", "cell-mark")]),
     ("row",         "\\cell\\row ",                    [("sep", "cell-mark")]),
-    ("page",        "\\page ",                         [("sep", "page")]),
-    ("sect",        "\\sect ",                         [("sep", "sect")]),
+    # a hard page / section break is not among the boundaries the property lists (paragraph, cell,
+    # line-break, tab): no separation is demanded for it (weaker reading, see DESIGN 7)
+    ("page",        "\\page ",                         [("nothing", "page")]),
+    ("sect",        "\\sect ",                         [("nothing", "sect")]),
     ("hex",         "\\'e9",                           [("chars", "hex")]),
     ("uni-q",       "\\u233?",                         [("chars", "unicode")]),
     ("uni-hex",     "\\u8364\\'80",                    [("chars", "u-fallback")]),
